@@ -10,6 +10,16 @@ CHECKS = {
     technique='TLA+/TLC: trace validation of recorded allocator histories against HeapInv.tla; TLC model run of Schedule.tla on the published memory maps; Heap.tla design run + spec-to-code replay',
     text='TLC evaluates the allocator statement (tiling, free list = non-live chunks, coalescing, true high-water mark, no overlap on alloc) after every call of the real Heap in TLC-generated (every distinct state/last-op of the bounded model), seeded random and SimOps-induced histories; the published memory maps of random circuits x capacities x {c_reuse} x {strip_forks} are executed in Schedule.tla (level-wise for all, every interleaving for narrow levels) with operand validity, Pinned, WithinCLen, AliasExact. The concrete model Heap.tla is exhaustively checked inside its bounds and must conform step by step (DRIFT only).',
     note='Trusted: TLC, CommunityModules JSON reader, the harness projection of Heap tables / SimOps arrays, the recording Heap subclass. Histories free only live chunks. Exhaustive only inside the stated model constants; beyond them seeded sampling judged by the spec.'),
+ 'C01': dict(
+    cat='model_checking', ref='DESIGN.md §4 C01, §3 (Prims, Netlist, LogicSimT, LutCheck, LogicLaws)',
+    technique='TLA+/TLC: batched trace validation of LogicSim observations against the netlist semantics Netlist.Eval (LogicSimT.tla); TLC check of the published LUT constants (LutCheck.tla) and of the algebra laws (LogicLaws.tla)',
+    text='Observations of the real 2-valued LogicSim (plain and callback code path, all c_reuse x strip_forks settings, batch sizes 1..20 incl. non-multiples of 8 with garbage in the padding lanes, 1..4 clock cycles) on circuits with every primitive at every connected-pin pattern and on seeded random circuits are validated by TLC: every captured value must equal the value the TLA+ netlist semantics gives that pin (evaluation node by node from kind names, arity rule, open pins = 0, forks, flip-flop QN inverted, latches; it never looks at ops/c_locs), cycles must equal the iterated next-state function, padding lanes must not matter. The 33 published look-up constants are checked against the Boolean functions.',
+    note='Interface-cut convention (DESIGN §5.2): ports and state elements drive their outputs from the assigned value. Trusted: TLC, JSON reader, harness projection; the harness topological order is checked by the spec (TopoOK).'),
+ 'C02': dict(
+    cat='model_checking', ref='DESIGN.md §4 C02, §3 (Logic, Prims, LogicLaws, LogicSimT)',
+    technique='TLA+/TLC: exhaustive check of the algebra laws over all operand tuples (LogicLaws.tla); batched trace validation of 4-/8-valued LogicSim observations against Netlist.Eval built from the documented operators (LogicSimT.tla)',
+    text='TLC proves on the specification, for all 33 primitives and all 8^4 / 4^4 operand tuples, that the bit-plane formulas equal the code semantics, X-soundness against every completion, the 8->2 projection and closure of the 4-valued sub-algebra. Observations of the real LogicSim (m=4 and m=8, all option settings) on random circuits with stimuli arranged in completion families are validated: captured value = gate-by-gate composition of the documented operators; XSound and Proj8To2 are evaluated directly on the observed results.',
+    note='Proj8To2 on lanes with known stimuli only. Interface elements pass the assigned code on unchanged. Trusted: TLC, JSON reader, harness projection.'),
  'C07': dict(
     cat='model_checking', ref='DESIGN.md §4 C07, §3 (Schedule, ThreadOrder, SchedReplay)',
     technique='TLA+/TLC: model run of Schedule.tla on the published schedule (all Begin/End interleavings for narrow levels, level-wise static form for all); TLC-simulated thread orders (ThreadOrder.tla) replayed into the real simulators, judged by SchedReplay.tla',
